@@ -74,19 +74,6 @@ func (x *xl) funcValueCall(c *ast.CallExpr) ([]string, string, bool, error) {
 	return bs, "(" + strings.Join(es, " ") + ")", true, nil
 }
 
-// flatParam: the caller's flattened parameter for the selector chain `key` of the receiver
-func (x *xl) flatParam(key, leanT string) string {
-	if n, ok := x.flat[key]; ok {
-		x.touched[n] = true
-		return n
-	}
-	n := x.fresh(x.recv.Name() + "_" + strings.ReplaceAll(key, ".", "_"))
-	x.flat[key] = n
-	x.touched[n] = true
-	x.flatPs = append(x.flatPs, xlParam{n, leanT})
-	return n
-}
-
 // recvIsMine: the call is a method call whose receiver expression is this function's (flattened) receiver
 func (x *xl) recvIsMine(c *ast.CallExpr) bool {
 	sel, ok := c.Fun.(*ast.SelectorExpr)
@@ -125,7 +112,11 @@ func (x *xl) flatCall(c *ast.CallExpr, fn *types.Func) ([]string, string, bool, 
 	}
 	var pre []string
 	for i, key := range d.flatKeys {
-		pre = append(pre, x.flatParam(key, d.flatTypes[i]))
+		fp, err := x.flatParam(c, key, d.flatTypes[i]) // translate_dom.go
+		if err != nil {
+			return nil, "", true, err
+		}
+		pre = append(pre, fp)
 	}
 	if d.rec {
 		fp := d.lean + "_fuel"
@@ -198,7 +189,7 @@ func (x *xl) emitRec(fn *types.Func, params []xlParam, retT string, body []strin
 	fmt.Fprintf(&b, "    let %s := %s\n", xlRecName, strings.Join(append(append([]string{f.Lean}, fixedNames...), "fuel"), " "))
 	b.WriteString(strings.Join(ind(ind(body)), "\n"))
 	b.WriteString("\n")
-	d := &xlDone{lean: f.Lean, monadic: true, nparams: -1, rec: true}
+	d := &xlDone{lean: f.Lean, monadic: true, nparams: -1, rec: true, f: f, sig: fn.Type().(*types.Signature)}
 	d.flatKeys, d.flatTypes = x.flatKeyList()
 	w.done[fn] = d
 	return b.String(), nil
